@@ -175,6 +175,36 @@ fn helper() -> int { x + 30 }
 pub fn fc() -> int { x += 1; helper() + fa() }
 fn main() {}
 `},
+	// an imported name that other modules also define (privately, publicly, as a global): the linker must
+	// not depend on which module it happens to visit first
+	"look-alike-names": {"main": `import { f, shared } from a;
+import { g } from b;
+import { h } from c;
+fn main() {
+    println(f(), g(), h(), shared);
+    println(f(), g(), h(), shared);
+}
+`, "a": `pub let shared = 1;
+let k = 10;
+pub fn f() -> str { k += 1; "a.f " + k.to_string() }
+fn main() {}
+`, "b": `let shared = 2;
+let k = 20;
+fn f() -> str { k += 1; "b.f " + k.to_string() }
+pub fn g() -> str { f() + "/" + shared.to_string() }
+fn main() {}
+`, "c": `import { f } from a;
+let shared = 3;
+let k = 30;
+fn g() -> str { k += 1; "c.g " + k.to_string() }
+pub fn h() -> str { f() + "|" + g() + "/" + shared.to_string() }
+fn main() {}
+`, "d": `pub fn f() -> str { "d.f" }
+pub fn g() -> str { "d.g" }
+pub fn h() -> str { "d.h" }
+pub let shared = 4;
+fn main() {}
+`},
 	"lambdas-and-locals": {"main": `fn main() {
     let a = 1; let b = 2; let c = 3; let d = 4; let e = 5; let f = 6; let g = 7; let h = 8;
     let l1 = fn(p: int) -> int { p + 1 };
